@@ -56,7 +56,13 @@ def gen_schema_spec(rng, max_elems=8):
     for an in ['id', 'n']:
         if rng.random() < 0.5:
             attrs.append({'name': an, 'type': rng.choice(['int', 'integer', 'boolean', 'string', 'date', 'decimal'])})
-    return {'elems': elems, 'attrs': attrs}
+    groups = []
+    if rng.random() < 0.5:
+        # containers with anonymous complex types that declare a same-named local child with different types
+        for gi in range(rng.choice([1, 2, 2, 3])):
+            groups.append({'name': 'g%d' % gi, 'child': rng.choice(['v', 'v', 'w']), 'type': rng.choice(keys),
+                           'max': rng.choice([1, 2])})
+    return {'elems': elems, 'attrs': attrs, 'groups': groups}
 
 
 def render_schema(spec, variant='A'):
@@ -78,6 +84,10 @@ def render_schema(spec, variant='A'):
                          '</xs:element>' % (e['name'], occ, nil, tname(e['type']), e['attr']['name'], tname(e['attr']['type'])))
         else:
             parts.append('<xs:element name="%s" type="%s"%s%s/>' % (e['name'], tname(e['type']), occ, nil))
+    for g in spec.get('groups', ()):
+        parts.append('<xs:element name="%s" minOccurs="0"><xs:complexType><xs:sequence>'
+                     '<xs:element name="%s" type="%s" maxOccurs="%d"/></xs:sequence></xs:complexType></xs:element>' % (
+                         g['name'], g['child'], tname(g['type']), g['max']))
     parts.append('</xs:sequence>')
     for a in spec['attrs']:
         parts.append('<xs:attribute name="%s" type="%s"/>' % (a['name'], tname(a['type'])))
@@ -111,4 +121,13 @@ def gen_instance(rng, spec):
             body += '<%s%s>%s</%s>' % (e['name'], a, v, e['name'])
             facts.append({'path': '/t:r/%s[%d]' % (e['name'], i + 1), 'type': e['type'], 'lex': v, 'kind': 'element',
                           'simple_content': 'attr' in e})
+    for g in spec.get('groups', ()):
+        if rng.random() < 0.85:
+            inner = ''
+            for i in range(rng.randint(1, g['max'])):
+                v = rng.choice(TYPES[g['type']][3])
+                inner += '<%s>%s</%s>' % (g['child'], v, g['child'])
+                facts.append({'path': '/t:r/%s/%s[%d]' % (g['name'], g['child'], i + 1), 'type': g['type'], 'lex': v,
+                              'kind': 'element', 'nested': True})
+            body += '<%s>%s</%s>' % (g['name'], inner, g['name'])
     return '<t:r xmlns:t="%s"%s>%s</t:r>' % (TNS, attrs, body), facts
